@@ -158,12 +158,17 @@ type verifFaultySink struct {
 	verifSeekBuf
 	calls  int
 	failAt int
+	once   bool // fail only the failAt-th call instead of every call from it on
+}
+
+func (s *verifFaultySink) fails(i int) bool {
+	return i == s.failAt || (!s.once && i > s.failAt)
 }
 
 func (s *verifFaultySink) Write(p []byte) (int, error) {
 	i := s.calls
 	s.calls++
-	if i >= s.failAt {
+	if s.fails(i) {
 		return 0, errVerifInjected
 	}
 	return s.verifSeekBuf.Write(p)
@@ -174,7 +179,7 @@ type verifFaultySeekSink struct{ *verifFaultySink }
 func (s verifFaultySeekSink) Seek(off int64, whence int) (int64, error) {
 	i := s.calls
 	s.calls++
-	if i >= s.failAt {
+	if s.fails(i) {
 		return 0, errVerifInjected
 	}
 	return s.verifSeekBuf.Seek(off, whence)
@@ -214,8 +219,8 @@ func verifWriteProgram(sink io.Writer, v Version, human bool) error {
 	return w.Close()
 }
 
-// Verif_C19_write_faults: if the sink fails at the k-th Write/Seek (and from
-// then on), some Writer call no later than Close returns an error carrying
+// Verif_C19_write_faults: if the sink fails at the k-th Write/Seek (only
+// there, or from then on), some Writer call no later than Close returns an error carrying
 // the sink's error.
 func Verif_C19_write_faults() {
 	defer verifFixRand()()
@@ -230,7 +235,7 @@ func Verif_C19_write_faults() {
 	}
 	verifrt.Assert(verifWriteProgram(sink, v, human) == nil, "fault-free program succeeds")
 	k := verifrt.Len("k", 0, clean.calls-1)
-	faulty := &verifFaultySink{failAt: k}
+	faulty := &verifFaultySink{failAt: k, once: verifrt.Choice("once", 2) == 1}
 	sink = faulty
 	if seekable {
 		sink = verifFaultySeekSink{faulty}
